@@ -3,15 +3,18 @@ package main
 import (
 	"bytes"
 	"context"
+	"encoding/base64"
 	"fmt"
 	"io"
 	"net"
+	"net/http"
 	"net/http/httptest"
 	"sort"
 	"strings"
 	"sync"
 	"time"
 
+	spb "google.golang.org/genproto/googleapis/rpc/status"
 	"google.golang.org/grpc"
 	"google.golang.org/grpc/codes"
 	"google.golang.org/grpc/metadata"
@@ -196,7 +199,9 @@ func (c c10Client) String() string {
 	return fmt.Sprintf("replies=%v status=%v %q details=%s", c.replies, c.code, c.msg, c.details)
 }
 
-func c10Call(cc *grpc.ClientConn, fx *Fixture, method string, cs, ss bool, msgs []*dynamicpb.Message, md metadata.MD, keepOpen ...bool) (out c10Client) {
+func c10Call(cc *grpc.ClientConn, fx *Fixture, method string, cs, ss bool, msgs []*dynamicpb.Message, md metadata.MD, clientMode ...int) (out c10Client) {
+	// clientMode: 0 half-close after the messages; 1 keep the sending side open and wait; 2 wait a moment
+	// (the backend may have completed by then), send one more message and half-close
 	ctx, cancel := context.WithTimeout(metadata.NewOutgoingContext(context.Background(), md), 1500*time.Millisecond)
 	defer cancel()
 	full := "/" + fxPkg + ".Back/" + method
@@ -244,8 +249,15 @@ func c10Call(cc *grpc.ClientConn, fx *Fixture, method string, cs, ss bool, msgs 
 			break
 		}
 	}
-	if len(keepOpen) == 0 || !keepOpen[0] {
-		st.CloseSend()
+	switch append(clientMode, 0)[0] {
+	case 0:
+		st.CloseSend() //nolint
+	case 2:
+		time.Sleep(60 * time.Millisecond)
+		if len(msgs) > 0 {
+			st.SendMsg(msgs[0]) //nolint
+		}
+		st.CloseSend() //nolint
 	}
 	for {
 		o := fx.NewMsg("Reply")
@@ -324,7 +336,7 @@ func runC10(c *Ctx) {
 	}
 	msgsText := []string{"", "plain", "50% of \"x\"", "naïve ✓ 日本", "invalid name \"a%2Fb%2Fc\" %41 100%25", "%", "tab\there"}
 	id := 0
-	earlyOK := 0
+	earlyOK, lateSend := 0, 0
 	n := c.N(260, 5000)
 	for i := 0; i < n; i++ {
 		sh := shapes[i%4]
@@ -346,13 +358,16 @@ func runC10(c *Ctx) {
 				sc.failAt = sc.replies
 			}
 		}
-		keepOpen := false
+		keepOpen, mode := false, 0
 		if sh.cs && nmsg >= 1 && sc.code != codes.OK && c.Rng.Intn(3) == 0 {
-			sc.eager, keepOpen = true, true // the backend fails early; the client keeps its side open and waits
+			sc.eager, keepOpen, mode = true, true, 1 // the backend fails early; the client keeps its side open and waits
 		}
 		if sh.cs && sh.ss && nmsg >= 1 && sc.code == codes.OK && earlyOK < 2 {
 			earlyOK++
-			sc.eager, keepOpen = true, true // the backend completes OK early (recorded finding: the proxy waits for the client)
+			sc.eager, keepOpen, mode = true, true, 1 // the backend completes OK early (recorded finding: the proxy waits for the client)
+		} else if sh.cs && sh.ss && nmsg >= 1 && lateSend < 4 && (sc.code == codes.OK || lateSend >= 2) {
+			lateSend++
+			sc.eager, mode = true, 2 // the backend completes early (twice OK, twice any outcome); the client then sends once more and half-closes
 		}
 		var msgs []*dynamicpb.Message
 		for k := 0; k < nmsg; k++ {
@@ -378,13 +393,13 @@ func runC10(c *Ctx) {
 				"x-c10-custom", "v1", "x-c10-custom", "v2", "x-c10-data-bin", string([]byte{0, 1, 0xfe, 0xff}),
 				"grpc-c10-tenant", "t1", "grpc-c10-trace-bin", string([]byte{9, 8, 0xff}))
 		}
-		in := fmt.Sprintf("%s msgs=%d backend: replies=%d code=%v failAt=%d msg=%q details=%v eager=%v clientKeepsOpen=%v", sh.name, nmsg, sc.replies, sc.code, sc.failAt, sc.msg, sc.details, sc.eager, keepOpen)
+		in := fmt.Sprintf("%s msgs=%d backend: replies=%d code=%v failAt=%d msg=%q details=%v eager=%v clientMode=%d (0 half-close, 1 keeps open, 2 late send then half-close)", sh.name, nmsg, sc.replies, sc.code, sc.failAt, sc.msg, sc.details, sc.eager, mode)
 		c.Eval("proxy", in, true)
 		c.Class(sh.name + ":" + map[bool]string{true: "ok", false: "fail"}[sc.code == codes.OK])
 		dmd := mdFor("d")
-		dOut := c10Call(bcc, backFx, sh.name, sh.cs, sh.ss, msgs, dmd, keepOpen)
+		dOut := c10Call(bcc, backFx, sh.name, sh.cs, sh.ss, msgs, dmd, mode)
 		pmd := mdFor("p")
-		pOut := c10Call(fcc, backFx, sh.name, sh.cs, sh.ss, msgs, pmd, keepOpen)
+		pOut := c10Call(fcc, backFx, sh.name, sh.cs, sh.ss, msgs, pmd, mode)
 		bk.mu.Lock()
 		dSeen, pSeen := bk.seen[dmd.Get("x-c10-id")[0]], bk.seen[pmd.Get("x-c10-id")[0]]
 		bk.mu.Unlock()
@@ -430,6 +445,7 @@ func runC10(c *Ctx) {
 		}
 	}
 
+	c10HTTPStream(c, mux, backFx, &id)
 	// HTTP front: the request message must reach the backend whatever the body framing
 	for i := 0; i < c.N(40, 400); i++ {
 		m := backFx.NewMsg("Req")
@@ -461,6 +477,48 @@ func runC10(c *Ctx) {
 				got = seen.msgs[0]
 			}
 			c.SpecFail("http-front", in, fmt.Sprintf("%d %v backend got %s", rec.Code, pn, truncS(got, 200)), "the request message", "C10/http-front/request-message", "the backend does not receive the message the HTTP client sent")
+		}
+	}
+}
+
+// c10HTTPStream: an HTTP/JSON client in front of a proxied server-streaming method whose backend
+// fails before, during or after its replies: the client sees the replies in order, then the status.
+func c10HTTPStream(c *Ctx, mux http.Handler, backFx *Fixture, id *int) {
+	for _, sc := range []struct{ replies, code, failAt int }{{0, 0, -2}, {3, 0, -2}, {2, 9, -1}, {2, 9, 0}, {3, 9, 1}, {3, 5, 3}, {1, 13, 1}, {4, 10, 2}} {
+		*id++
+		r := httptest.NewRequest("POST", "/"+fxPkg+".Back/SS", strings.NewReader(`{"name":"h"}`))
+		r.Header.Set("Content-Type", "application/json")
+		r.Header.Set("x-c10-id", fmt.Sprint("hs", *id))
+		r.Header.Set("x-c10-script", fmt.Sprintf("%d,%d,%d", sc.replies, sc.code, sc.failAt))
+		r.Header.Set("x-c10-msg-bin", base64.StdEncoding.EncodeToString([]byte("backend said no")))
+		rec, pn := serveOn(mux, r)
+		in := fmt.Sprintf("HTTP POST Back/SS backend: replies=%d code=%d failAt=%d", sc.replies, sc.code, sc.failAt)
+		c.Eval("http-front-stream", in, true)
+		c.Class("http:server-stream")
+		if pn != nil {
+			c.SpecFail("http-front-stream", in, fmt.Sprint("panic: ", pn), "a response", "C10/http-front/panic", "panic")
+			continue
+		}
+		wantReplies := sc.replies
+		failed := sc.code != 0 && sc.failAt != -2
+		if failed && sc.failAt >= 0 && sc.failAt < sc.replies {
+			wantReplies = sc.failAt
+		}
+		if failed && sc.failAt == -1 {
+			wantReplies = 0
+		}
+		objs := splitJSONObjects(rec.Body.Bytes())
+		ok := len(objs) == wantReplies+map[bool]int{true: 1, false: 0}[failed]
+		for k := 0; ok && k < wantReplies; k++ {
+			m := backFx.NewMsg("Reply")
+			ok = protojson.Unmarshal(objs[k], m) == nil && m.Get(m.Descriptor().Fields().ByName("text")).String() == fmt.Sprint("r", k)
+		}
+		if ok && failed {
+			st := &spb.Status{}
+			ok = protojson.Unmarshal(objs[len(objs)-1], st) == nil && int(st.Code) == sc.code && st.Message == "backend said no"
+		}
+		if !ok {
+			c.SpecFail("http-front-stream", in, fmt.Sprintf("%d %s", rec.Code, truncS(rec.Body.String(), 300)), fmt.Sprintf("%d replies r0.. then %s", wantReplies, map[bool]string{true: fmt.Sprintf("a google.rpc.Status with code %d", sc.code), false: "the end"}[failed]), "C10/http-front/stream-transcript", "an HTTP client of a proxied server stream does not see the backend's replies followed by its status")
 		}
 	}
 }
